@@ -7,6 +7,11 @@ props = [json.loads(l) for l in open(os.path.join(V, "properties.jsonl"))]
 
 # property id -> (category, technique, level text, level note) ; absent = not claimed (reason in NOT_APPLICABLE)
 CLAIMS = {
+ "C13": ("exploration",
+         "runtime monitoring: differential oracle (reference module system inside the reference evaluator) over random library/program scenarios with stateful libraries and colliding names",
+         "random scenarios of 2-5 libraries and an importing program (a stateful counter library read through several import paths, libraries importing libraries, renamed and unexported internals, importer definitions colliding with library internals and with (scheme base), redefinition of imported names, a library referring to importer-only names) run on the real interpreter; every form's result is judged by a reference module system with one instance per program.",
+         "trusted base: module system of vlib/ref_scheme.py; exports are procedures and constants"),
+
  "C14": ("fault_enumeration",
          "runtime monitoring: fault enumeration over library graphs x node kinds x import histories; loader-model oracle + quiescent-point invariant on the in-progress set (hook H3)",
          "every directed graph on 1-2 libraries (3 sampled in quick, all registered-source cases in thorough, 4 sampled) x every assignment of 6 node kinds x every history of 3 import attempts is run on the real interpreter, libraries as files under a program directory (decoy libraries in the process's cwd) and as registered sources. Each attempt's outcome must be the one a fresh depth-first load gives (success iff no fault and no cycle reachable; error kind among the reachable ones), the names bound must be exactly the exports of the successfully imported libraries with the program directory's values, and after every step the in-progress set must be empty.",
